@@ -127,7 +127,8 @@ def request_quantum(base, contents=None):
         drift = 1 + (sum(abs(vol_per_stored(s)) for s in contents) if contents else 0.0)
         return cf.q * cf.vol_prefix * (n + 3) * drift
     if base == 'g':
-        return cf.q * cf.mol_prefix      # a mass request is rounded on the scale amounts are stored on (ug for umol)
+        return 0.0      # a mass has no storage unit: the request keeps the digits a float carries (fix 31962f1); what the stored
+                        # amounts of the contents cannot resolve is added by the callers (storage_noise_in)
     if base == 'mol':
         return cf.q * cf.mol_prefix
     if base == 'U':
